@@ -37,6 +37,23 @@ Definition pairs_unique (n : nat) : list (list nat) := flat_map (fun i => map (f
 Definition pairs_any (n : nat) : list (list nat) := flat_map (fun i => map (fun j => [i; j]) (seq i (n - i))) (seq 0 n).
 Definition ohvmat_def (hap : list (list (list Z))) (u : list (list Q)) (bounds : list (nat * nat)) (n t : nat) (unique : bool) : list (list Q) :=
   map (ohv_row (haploval hap u bounds n t) (length bounds) t) (if unique then pairs_unique n else pairs_any n).
+(** cross maps for ANY number of parents k (numpy.array(list(triudix(n,k))) / triuix(n,k)): every strictly increasing
+    (unique parents) / non-decreasing index tuple of length k below n, in lexicographic order; and the OHV table of a
+    k-parent problem: the row of a cross is [ohv_row] on the WHOLE parent list of the cross (all columns of the cross map) *)
+Fixpoint xmap_from (unique : bool) (n k lo : nat) : list (list nat) :=
+  match k with
+  | O => [[]]
+  | S k' => flat_map (fun i => map (cons i) (xmap_from unique n k' (if unique then S i else i))) (seq lo (n - lo))
+  end.
+Definition xmap_def (unique : bool) (n k : nat) : list (list nat) := xmap_from unique n k 0.
+(** the table on a given cross map (what _calc_ohvmat computes, for every chunk size) *)
+Definition ohvmat_on (hap : list (list (list Z))) (u : list (list Q)) (bounds : list (nat * nat)) (n t : nat) (xmap : list (list nat)) : list (list Q) :=
+  map (ohv_row (haploval hap u bounds n t) (length bounds) t) xmap.
+Definition ohvmat_defk (hap : list (list (list Z))) (u : list (list Q)) (bounds : list (nat * nat)) (n t k : nat) (unique : bool) : list (list Q) :=
+  ohvmat_on hap u bounds n t (xmap_def unique n k).
+(** index tuples: [lo <= i1 (<|<=) i2 (<|<=) ...] *)
+Fixpoint chain (unique : bool) (lo : nat) (l : list nat) : Prop :=
+  match l with [] => True | i :: r => (lo <= i)%nat /\ chain unique (if unique then S i else i) r end.
 
 (** L1 tensor: V[q][j][i] = mkrwt[j,q] * (tafreq[i,j] - tfreq[j,q]),  tafreq = dosage / ploidy *)
 Definition l1_tensor (hap : list (list (list Z))) (w tf : list (list Q)) (n p t : nat) : list (list (list Q)) :=
